@@ -2,9 +2,13 @@
 COMMUTATIVE = {"Duration::add", "cmp::max", "cmp::min", "op:BitXor", "op:BitAnd", "op:BitOr", "op:Add", "op:Mul", "op:Eq", "op:Ne"}
 
 
+ALIASES = {"Instant::duration_since": "Instant::sub", "Instant::saturating_duration_since": "Instant::sub",      # `a - b` on Instant saturates (std >= 1.60)
+           "Duration::max": "cmp::max", "Ord::max": "cmp::max", "Duration::min": "cmp::min", "Ord::min": "cmp::min"}
+
+
 def norm(t):
     if isinstance(t, tuple) and t and isinstance(t[0], str):
-        op = t[0]
+        op = ALIASES.get(t[0], t[0])
         args = [norm(x) for x in t[1:]]
         if op in COMMUTATIVE:
             args = sorted(args, key=repr)
